@@ -119,13 +119,16 @@ ASSUMPTIONS = [
 
 # defects of the unchanged tree the evaluator can reproduce; order = priority
 # when more than one is needed to explain an observation
+# (only second-pass-restarts is still present in /repo and listed in
+# known_findings.json: it is tried first; the others were repaired and remain
+# as names for what a revert of their repair looks like)
 KNOWN_DEFECTS = [
-    ('expand-per-parse',
-     'percent/env expansion runs at the end of every parse() (each included '
-     'file, each top-level file) instead of once at the end'),
     ('second-pass-restarts',
      'the canonical/final pass is evaluated from scratch (reload=True) '
      'instead of keeping the values obtained in the first pass'),
+    ('expand-per-parse',
+     'percent/env expansion runs at the end of every parse() (each included '
+     'file, each top-level file) instead of once at the end'),
     ('nosplit-equals',
      'ProxyCommand/RemoteCommand written with "=" keep the "=" in the value'),
     ('include-glob-unsorted',
